@@ -80,7 +80,10 @@ fn main() {
         let mut findings: Vec<Finding> = Vec::new();
         let rec = &rr.outcome;
         let Some(base) = NaiveDate::from_ymd_opt(rr.base.0, rr.base.1, rr.base.2) else { return (findings, cnt) };
-        let r = Render { base, order: Order::Shuffled(case_no as u64), fills: Fills::One, lower: false, dividends: false, only: None };
+        // odd cases: every cell as two fills, securities interleaved inside the day (a day's sales of one
+        // security are then separated by another security's sale)
+        let r = if case_no % 2 == 1 { Render { base, order: Order::Interleaved, fills: Fills::Halves, lower: false, dividends: false, only: None } }
+                else { Render { base, order: Order::Shuffled(case_no as u64), fills: Fills::One, lower: false, dividends: false, only: None } };
         let mut txs = render(rec, &r);
         for (d, per_sec) in rr.divs.iter().enumerate() {
             for (si, (inc, tax)) in per_sec.iter().enumerate() {
@@ -124,6 +127,14 @@ fn main() {
                 let want: Vec<u16> = rr.years.iter().map(|y| y.year).collect();
                 if got != want {
                     push("C07", "year_list", format!("tax years listed {:?}, expected {:?} (ascending, one per year with a disposal)", got, want));
+                }
+                let mut seen_disp = std::collections::HashSet::new();
+                for y in &rep.tax_years {
+                    for d in &y.disposals {
+                        if !seen_disp.insert((d.ticker.clone(), d.date)) {
+                            push("C04", "duplicate_disposal", format!("{} on {} is reported as more than one disposal", d.ticker, d.date));
+                        }
+                    }
                 }
                 for ey in &rr.years {
                     let Some(y) = rep.tax_years.iter().find(|y| y.period.start_year() == ey.year) else { continue };
